@@ -8,11 +8,36 @@ import (
 	"encoding/json"
 	"fmt"
 	"os"
+	"reflect"
 	"sort"
+	"strconv"
 	"strings"
 
 	cd "github.com/go-kid/ioc/component_definition"
+	"github.com/go-kid/ioc/container/processors"
+	"github.com/go-kid/ioc/container/support"
 )
+
+// scanRequired: what a real tag scanner (the embeddable DefaultTagScanDefinitionRegistryPostProcessor with a tag of its own)
+// makes of the tag on a struct field, with the scanner's Required default unset / set: -1 = no property / panic, else 0 / 1.
+// Only an explicit required=false makes a point optional, whatever the scanner's default.
+func scanRequired(tag string, def bool) (res int) {
+	res = -1
+	defer func() { _ = recover() }()
+	st := reflect.StructOf([]reflect.StructField{{Name: "F", Type: reflect.TypeOf(""), Tag: reflect.StructTag("x:" + strconv.Quote(tag))}})
+	reg := support.DefaultDefinitionRegistry()
+	proc := &processors.DefaultTagScanDefinitionRegistryPostProcessor{NodeType: cd.PropertyTypeConfiguration, Tag: "x", Required: def}
+	if err := proc.PostProcessDefinitionRegistry(reg, reflect.New(st).Interface(), "c"); err != nil {
+		return
+	}
+	if ps := reg.GetMetaByName("c").GetAllProperties(); len(ps) == 1 {
+		res = 0
+		if ps[0].IsRequired() {
+			res = 1
+		}
+	}
+	return
+}
 
 var tgWords = []string{"Required", "required", "Qualifier", "qualifier", "False", "false", "X", "x"}
 
@@ -89,6 +114,9 @@ func cmdTags(in, out string) error {
 			ev["args"] = args
 			ev["required"] = p.IsRequired()
 		}()
+		if n%7 == 0 { // the end-to-end path through a real scanner, for every seventh tag
+			ev["scanUnset"], ev["scanSet"] = scanRequired(tag, false), scanRequired(tag, true)
+		}
 		_ = enc.Encode(ev)
 		n++
 	}
